@@ -211,10 +211,27 @@ def explicit_basic(tier, fam="E"):
     out.append(tandem("E tandem block syscap=3", fam, c=(1, 1), caps=(None, 0), K=None, T=BIG, system_capacity=3, features=["explicit", "blocking"]))
     out.append(tandem("E tandem c=(2,1) cap=1 syscap=4", fam, c=(2, 1), caps=(None, 1), K=None, T=BIG, system_capacity=4, features=["explicit", "blocking"]))
     out.append(single("E c=2 renege syscap=3", fam, c=2, K=None, T=BIG, system_capacity=3, classkw={"renege": [PAT]}, features=["explicit", "reneging"]))
+    # (a low-priority customer can starve for ever: its waiting time is unbounded, the state space infinite -> bounded search)
     out.append(two_class_single("E prio-preempt resume syscap=3", fam, c=1, K=None, T=BIG, prios=(1, 0), preempt="resume", system_capacity=3,
-                                features=["explicit", "preempt_prio"]))
+                                max_states=120000, features=["explicit", "preempt_prio"]))
     out.append(single("E sched [1,0,2] syscap=3", fam, K=None, T=BIG, system_capacity=3,
                       c={"sched": {"numbers": [1, 0, 2], "ends": [1.5, 2.5, 4.0], "preempt": False}}, features=["explicit", "schedule"]))
     out.append(single("E sched resume [1,0,2] syscap=3", fam, K=None, T=BIG, system_capacity=3,
                       c={"sched": {"numbers": [1, 0, 2], "ends": [1.5, 2.5, 4.0], "preempt": "resume"}}, features=["explicit", "schedule"]))
     return out
+
+
+def explicit_small(kind, fam="E"):
+    """one small property-specific network for the quick tier's explicit-state search"""
+    if kind == "renege":
+        return single("E c=1 renege syscap=2", fam, c=1, K=None, T=BIG, system_capacity=2, classkw={"renege": [PAT]}, features=["explicit", "reneging"])
+    if kind == "sched":
+        return single("E sched [1,0] syscap=2", fam, K=None, T=BIG, system_capacity=2,
+                      c={"sched": {"numbers": [1, 0], "ends": [1.5, 2.5], "preempt": False}}, features=["explicit", "schedule"])
+    if kind == "sched-resume":
+        return single("E sched resume [1,0] syscap=2", fam, K=None, T=BIG, system_capacity=2,
+                      c={"sched": {"numbers": [1, 0], "ends": [1.5, 2.5], "preempt": "resume"}}, features=["explicit", "schedule"])
+    if kind == "preempt":
+        return two_class_single("E prio-preempt resume syscap=2", fam, c=1, K=None, T=BIG, prios=(1, 0), preempt="resume", system_capacity=2,
+                                features=["explicit", "preempt_prio"])
+    raise ValueError(kind)
